@@ -109,6 +109,9 @@ func runC02(r *vhlib.Run) {
 	rng := r.Rng
 	// the brotli sliding window against its implementation-level model (Window/DictBr.v)
 	wdictbr(r)
+	// brotli's own bit reader and prefix decoder against their implementation-level models
+	wbrbits(r)
+	wbrdec(r)
 	dict := brDict(r)
 	m := vhlib.StartModel()
 	defer m.Close()
